@@ -38,9 +38,12 @@ func maxPos(numLeaves uint64) uint64 { return 2 * numLeaves }
 
 func Verify(stump Stump, delHashes []Hash, proof Proof) ([]int, error) {
 	
-	_, cands, err := calc(stump.NumLeaves, delHashes, proof)
+	positions, cands, err := calc(stump.NumLeaves, delHashes, proof)
 	if err != nil {
 		return nil, err
+	}
+	if len(positions) != len(cands) {
+		return nil, errors.New("positions")
 	}
 	idx := make([]int, 0, len(cands))
 	for i := range stump.Roots {
